@@ -104,7 +104,7 @@ Qed.
    support: affine combinations of consistent pairs are consistent) *)
 Hypothesis Haccept : forall w Xw w_acc Xw_acc p_obj p_obj_acc,
   consI w Xw -> objective cfg K w Xw = Ok p_obj -> objective cfg K w_acc Xw_acc = Ok p_obj_acc ->
-  elt p_obj_acc p_obj = true -> consI w_acc Xw_acc.
+  elt p_obj_acc p_obj = true -> length w_acc = length w -> consI w_acc Xw_acc.
 
 Theorem andersoncd_preserves_consistency w0 Xw0 out :
   consI w0 Xw0 -> solve cfg K (Some w0) (Some Xw0) = Ok out -> consI (o_w out) (o_Xw out).
